@@ -549,6 +549,72 @@ func checkC16(c *Ctx, r *Report) {
 	}
 	tableIncrRule(c, r, "C16.INCR", "two definitions of one name inside a single document are then both accepted (the later wins in the name index, both stay in the list), while the same definitions split over two loads are rejected: acceptance depends on how the definitions are partitioned")
 	c16ExtRefs(c, r)
+	c16Defaults(c, r)
+}
+
+// c16Defaults: the reader completes a directive use with the defaults of the directive's definition only
+// when that definition is already known; what it may fill in is therefore restricted to arguments the
+// use does not mention at all. An argument written with an explicit value - null included - keeps it,
+// so that the arrangement "definition first" and "use first" describe the same schema.
+func c16Defaults(c *Ctx, r *Report) {
+	r.rule("C16.DEFAULTS", "an ArgValue carrying Arg.Default is stored into a directive use's argument map only under a failed lookup (nil entry) of that argument name in the same map")
+	n := 0
+	for _, fn := range c.allFns {
+		k := 0
+		for _, b := range fn.Blocks {
+			for _, in := range b.Instrs {
+				mu, ok := in.(*ssa.MapUpdate)
+				if !ok {
+					continue
+				}
+				mt, ok := mu.Map.Type().Underlying().(*types.Map)
+				if !ok || derefNamed(mt.Elem()) != "ArgValue" {
+					continue
+				}
+				// the stored ArgValue is built here with Value = <Arg>.Default
+				al, ok := mu.Value.(*ssa.Alloc)
+				if !ok {
+					continue
+				}
+				fromDefault := false
+				for _, ref := range *al.Referrers() {
+					fa, ok := ref.(*ssa.FieldAddr)
+					if !ok || fieldName(fa.X.Type(), fa.Field) != "Value" {
+						continue
+					}
+					for _, r2 := range *fa.Referrers() {
+						if st, ok := r2.(*ssa.Store); ok {
+							if _, o, f, ok := loadOfField(stripIface(st.Val)); ok && o == "Arg" && f == "Default" {
+								fromDefault = true
+							}
+						}
+					}
+				}
+				if !fromDefault {
+					continue
+				}
+				n++
+				k++
+				absent := hasGuard(b, func(g guard) bool {
+					v, eq, ok := nilCmp(g.cond)
+					if !ok || eq != g.val {
+						return false
+					}
+					var lk *ssa.Lookup
+					switch t := stripIface(v).(type) {
+					case *ssa.Lookup:
+						lk = t
+					case *ssa.Extract:
+						lk, _ = t.Tuple.(*ssa.Lookup)
+					}
+					return lk != nil && sameVal(lk.X, mu.Map) && sameVal(lk.Index, mu.Key)
+				})
+				r.check("C16.DEFAULTS", fmt.Sprintf("%s: default #%d is filled in only for an argument the use does not mention", fnName(fn), k), mu.Pos(), absent,
+					"the definition's default can replace an argument the use wrote explicitly (e.g. `max: null`): the use means `null` when the directive is defined after it in the same document and the default when the directive was loaded first")
+			}
+		}
+	}
+	r.floor("C16.DEFAULTS", "default completions of directive uses", n, 1)
 }
 
 // tableIncrRule: the type and directive tables have no duplicate test of their own (unlike the member
@@ -599,6 +665,28 @@ func tableIncrRule(c *Ctx, r *Report, rule, consequence string) {
 			fmt.Sprintf("single definition: %v, dominated by get(name)==nil on Root.%s: %v; %s", one, tbl, guarded, consequence))
 	}
 	r.floor(rule, "insertions into the type and directive tables by the loader", n, 2)
+	// a duplicate name is passed over in silence only for a scalar that is declared again: every kind test made
+	// after a successful lookup looks at the definition being added, not at the one found
+	for _, ci := range callsIn(at) {
+		cc := ci.Common()
+		if !cc.IsInvoke() || cc.Method.Name() != "Rank" {
+			continue
+		}
+		dup := hasGuard(ci.Block(), func(g guard) bool {
+			v, eq, ok := nilCmp(g.cond)
+			if !ok || eq == g.val {
+				return false
+			}
+			call, ok := stripIface(v).(*ssa.Call)
+			return ok && call.Call.StaticCallee() == get
+		})
+		if !dup {
+			continue
+		}
+		_, fromGet := stripIface(cc.Value).(*ssa.Call)
+		r.check(rule, fmt.Sprintf("%s: the tolerated duplicate is decided by the kind of the new definition", fnName(at)), ci.Pos(), !fromGet,
+			"after a name was found in the table the kind test looks at the registered definition: any definition that re-uses a scalar's name (type Time {...}, enum ID {...}) is dropped without an error instead of being refused as a duplicate")
+	}
 }
 
 // c16ExtRefs: what an extend block adds has its references resolved before it is merged into the
